@@ -11,5 +11,5 @@ CONFIG = dict(
           "Non-trivial = some event sees a fork of one validator and at the same time a clean (fork-free so far) history of another "
           "forking validator; distinct by DAG hash."),
     assumptions=["validator index i of the merged vector is the i-th validator in canonical order (Validators.Idxs)"],
-    units=[dict(test="TestC06MergedClock", quick=1500, thorough=240000, shards=16)],
+    units=[dict(test="TestC06MergedClock", quick=5000, thorough=240000, shards=16)],
 )
